@@ -55,13 +55,13 @@ class C17(Spec):
                     "actions); the toolchain's sync/mutex.go hash is recorded in the evidence",
                     "harness/csched cooperative scheduler; verifYield hook placement (sites 8-14) in /repo/loom",
                     "Go sync/atomic operations are sequentially consistent single steps",
-                    "translator tie (AddFlag, RemoveFlag, AddIf64, TryLock, Count): tools/srcfacts/minigo_atomic.go (go/ast + go/types "
+                    "translator tie (AddFlag, RemoveFlag, HasFlag, AddIf64, TryLock, Count): tools/srcfacts/minigo_atomic.go (go/ast + go/types "
                     "-> AtomicIR programs, regenerated every run into Got/Generated/AstLoomAtomics.lean; AddIf64's `addr == nil` guard "
                     "is not translated; named constants are replaced by their go/types values) and the AtomicIR semantics' reading of "
                     "the Go constructs (Got/Model/AtomicIR.lean); the generated LTSs are replayed on every schedule of the "
                     "correspondence (driver mode `ast`; for mx lines the TryLock threads are generated, the sync.Mutex traffic stays the "
-                    "hand-written transcription) and must print what the real code printed (ast_interpreter_mismatches); HasFlag is "
-                    "not translated"]
+                    "hand-written transcription) and must print what the real code printed (ast_interpreter_mismatches); "
+                    "`return f(<atomic access>)` is read as `tmp := <access>; return f(tmp)`"]
     assumptions = ["Unlock is only called by the goroutine that holds the mutex",
                    "waiter count below 2^28 (no overflow of the int32 state word)",
                    "the AddIf64 predicate is a pure function of the loaded value"]
@@ -221,8 +221,8 @@ class C17(Spec):
 
     def extra(self, ctx):
         from .c01 import translator_extra
-        translator_extra(self, ctx, gen_file="AstLoomAtomics.lean", notes=("addFlagNote", "removeFlagNote", "addIf64Note", "tryLockNote", "countNote"),
-                         what="loom.Flag.AddFlag/RemoveFlag, loom.AddIf64, loom.Mutex.TryLock/Count",
+        translator_extra(self, ctx, gen_file="AstLoomAtomics.lean", notes=("addFlagNote", "removeFlagNote", "addIf64Note", "tryLockNote", "countNote", "hasFlagNote"),
+                         what="loom.Flag.AddFlag/RemoveFlag/HasFlag, loom.AddIf64, loom.Mutex.TryLock/Count",
                          skip=lambda script, impl: not script.split(" ", 1)[0] in ("fl", "ai", "mx", "cnt"))
         # record the hash of the toolchain's sync/mutex.go (the transcribed environment)
         try:
